@@ -10,16 +10,16 @@ PLANS = {
         "thorough": [("hist", 10000), ("threads", 4000)],
     },
     "C15": {
-        "quick": [("hist", 900)],
-        "thorough": [("hist", 25000)],
+        "quick": [("hist", 750), ("threads", 150)],
+        "thorough": [("hist", 20000), ("threads", 4000)],
     },
     "C12": {
-        "quick": [("hist", 2500)],
-        "thorough": [("hist", 60000)],
+        "quick": [("hist", 2000), ("threads", 300), ("abort", 300)],
+        "thorough": [("hist", 50000), ("threads", 6000), ("abort", 6000)],
     },
     "C13": {
-        "quick": [("hist", 900), ("codec", 600)],
-        "thorough": [("hist", 20000), ("codec", 12000)],
+        "quick": [("hist", 800), ("codec", 500), ("threads", 250)],
+        "thorough": [("hist", 18000), ("codec", 10000), ("threads", 5000)],
     },
     "C14": {
         "quick": [("seq", 700), ("threads", 500), ("abort", 400), ("abort_enum", 10),
